@@ -55,8 +55,9 @@ def replay_row(row):
     mp.random = sh
     try:
         InD, OutD, IOD = c11.make_doubles()
-        a = IOD('a', world=wa, who='a')
-        b = IOD('b', world=wb, who='b')
+        # two devices of the same kind with the same name (two units of one product)
+        a = IOD('dev', world=wa, who='a')
+        b = IOD('dev', world=wb, who='b')
         sh.a = a
         # every second history hands the member ports over as a one-shot iterable
         port = mp.MultiPort([a, b]) if sum(len(x) for x in scripts) % 2 else mp.MultiPort(p for p in (a, b))
